@@ -543,6 +543,16 @@ func (w *World) opAPIRelease() {
 			f = pick(w.C, reserved)
 		}
 	}
+	// the administrator may act on a listing taken earlier: the entry then names an owner the IP no longer has, and
+	// must not release the IP from whoever holds it now
+	w.staleFips = append(w.staleFips, decodeFip(pick(w.C, fips)))
+	if len(w.staleFips) > 1 && w.C.Prob(1, 4) {
+		f = w.staleFips[w.C.Choose(len(w.staleFips)-1)]
+		w.S.Stat("admin.release-from-old-listing")
+		if cur := w.storeFip(f.IP); cur == nil || cur.Key != f.Key {
+			w.S.Stat("admin.release-entry-outdated")
+		}
+	}
 	e, ok := entryFromKey(f.IP, f.Key)
 	if !ok {
 		return
@@ -587,6 +597,12 @@ func entryFromKey(ip, key string) (releaseEntry, bool) {
 func (w *World) opAPIList() {
 	inst := w.inst
 	url := "/v1/ip?size=" + itoa(w.C.Range(1, 5)) + "&page=" + itoa(w.C.Choose(3))
+	if w.C.Prob(1, 2) {
+		url += "&sort=" + strings.ReplaceAll(pick(w.C, []string{"namespace asc", "namespace desc", "podname", "podname desc", "policy", "policy desc", "ip desc", "ip"}), " ", "%20")
+	}
+	if w.C.Prob(1, 4) {
+		url += "&keyword=" + pick(w.C, []string{"sts", "dp_", "pool__", "a"})
+	}
 	w.spawnGalaxy("api-list", "api", func() { httpTask(inst, "list", "GET", url, nil) })
 }
 
